@@ -20,7 +20,7 @@ pub mod native_enum {
         for (i, k) in kinds.iter().enumerate() { b.tokens.push(mk(*k, i as u32)); }
         b
     }
-    pub const CLAUSES: [(&str, &str); 7] = [
+    pub const CLAUSES: [(&str, &str); 8] = [
         ("C08 C14 C16 C17 C31", "len() counts the significant tokens; is_empty() iff there is none"),
         ("C08 C14 C16 C17 C31", "non_skip_token_at(i) is the i-th significant token (None beyond)"),
         ("C17 C31", "non_skip_token_at_mut(i) refers to the i-th significant token in place; writing through it changes exactly that token"),
@@ -28,6 +28,7 @@ pub mod native_enum {
         ("C14 C16 C17", "take_skip_tokens() returns exactly the maximal skipped prefix, in order, and leaves exactly the rest"),
         ("C17", "non_skip_tokens() / non_skip_tokens_rev() iterate exactly the significant tokens (forwards / backwards)"),
         ("C14 C17", "is_buffer_empty() iff the buffer holds no token at all; clear() empties it"),
+        ("C14", "position_after(line, column, text) is the position reached by advancing over text: a line feed starts a new line at column 1, every other char advances the column by one (saturating)"),
     ];
     /// index of the first violated clause for this buffer
     pub fn check(kinds: &[usize]) -> Option<usize> {
@@ -75,6 +76,16 @@ pub mod native_enum {
             if m.is_buffer_empty() != (n == 0) { return Some(6); }
             m.clear();
             if !m.is_buffer_empty() || m.len() != 0 { return Some(6); }
+        }
+        {
+            // every kind index names one char of a small alphabet (line feed, carriage return, ASCII, 2-, 3- and 4-byte chars)
+            const CH: [char; 7] = ['\n', '\r', 'a', ' ', '\u{e9}', '\u{20ac}', '\u{1f600}'];
+            let text: String = kinds.iter().map(|k| CH[*k % CH.len()]).collect();
+            for (l0, c0) in [(1u32, 1u32), (3, 7), (u32::MAX - 1, u32::MAX - 1), (u32::MAX, u32::MAX)] {
+                let (mut l, mut c) = (l0 as u64, c0 as u64);
+                for ch in text.chars() { if ch == '\n' { l += 1; c = 1; } else { c += 1; } l = l.min(u32::MAX as u64); c = c.min(u32::MAX as u64); }
+                if TokenBuffer::position_after(l0, c0, &text) != (l as u32, c as u32) { return Some(7); }
+            }
         }
         None
     }
